@@ -537,6 +537,17 @@ func c07Run(c *mc.Ctx) {
 			return r
 		}
 	}
+	// (0) more than 4 GiB of key bytes in one load (thorough; skipped when less than 24 GiB of memory are available); first,
+	// so that a deadline met later cannot cut it off
+	if th && c.Mine() {
+		if g := memAvailableGiB(); g >= 24 {
+			c.Distinct("huge")
+			c07Huge(c, c07Case{Kind: "int", Formula: "huge-keys", Real: true})
+			c.Done("one load holding more than 4 GiB of key bytes (5 keys of about 1 GiB, prefixes of one another, then short keys beyond the 4 GiB mark): Len, Get of every key, absent probes, Item enumeration")
+		} else {
+			c.Count(fmt.Sprintf("load-with-more-than-4GiB-of-key-bytes-skipped-(%d-GiB-of-memory-available,-24-wanted)", g), 1)
+		}
+	}
 	kinds := []string{"int", "struct", "str2str"}
 	// (1) never-loaded instances
 	for _, kd := range kinds {
@@ -669,16 +680,6 @@ func c07Run(c *mc.Ctx) {
 		}
 	}
 	c.Done(fmt.Sprintf("table sizes: every n in 0..300 and floor(0.75*2^b)+{-1,0,1} for b in 9..%d under 4 formula hashes (identity, all-collide, stride = slots, bit-reversed), all present keys and n absent keys probed", maxB))
-	// (5) more than 4 GiB of key bytes in one load (thorough; skipped when less than 24 GiB of memory are available)
-	if th && c.Mine() {
-		if g := memAvailableGiB(); g >= 24 {
-			c.Distinct("huge")
-			c07Huge(c, c07Case{Kind: "int", Formula: "huge-keys", Real: true})
-			c.Done("one load holding more than 4 GiB of key bytes (5 keys of about 1 GiB, prefixes of one another, then short keys beyond the 4 GiB mark): Len, Get of every key, absent probes, Item enumeration")
-		} else {
-			c.Count(fmt.Sprintf("load-with-more-than-4GiB-of-key-bytes-skipped-(%d-GiB-of-memory-available,-24-wanted)", g), 1)
-		}
-	}
 }
 
 // c07Huge: one load whose keys hold more than 4 GiB in total (five keys of about 1 GiB that are prefixes of one another and
